@@ -39,7 +39,8 @@
 //! C14 (light): after every session in which every call returned Ok (three-store scenario and extras; not E8, where two sessions
 //! write into one store at the same time) the metrics of finalize must satisfy xorb_bytes_uploaded == bytes of the `default.<hash>`
 //! files new in the store's xorb directory (only >= for concurrent cleaner tasks and for xorb limits of 1-2 chunks, where the same xorb
-//! can be put twice at the same time), shard_bytes_uploaded == bytes of the `.mdb` files created or replaced in its shard directory (a shard identical to an earlier
+//! can be put twice at the same time; the session after the abandoned one of E4 starts only when the abandoned session - kept alive
+//! by its upload tasks - is really gone: Weak::upgrade() is None), shard_bytes_uploaded == bytes of the `.mdb` files created or replaced in its shard directory (a shard identical to an earlier
 //! one is uploaded and written again), total == sum.
 //! Further children: (E) 2 KiB chunks with divisor 4 / multiplier 3, 2-chunk xorbs, 5000-byte ingestion blocks and (F) 1-chunk xorbs -
 //! extras only; (G) 4 KiB chunks, 40-chunk xorbs, fragmentation estimator over 4 ranges, repo salt 0x5a.., global dedup policy Never;
@@ -476,10 +477,22 @@ fn store_snap(base: &Path) -> StoreSnap {
 }
 /// every call of the session returned Ok: xorb_bytes_uploaded == bytes of the xorb files new in the store (put reports 0 for a xorb
 /// that exists), shard_bytes_uploaded == bytes of the new shard files, total == xorb + shard.
+#[derive(Clone, Copy, PartialEq, Debug)]
+enum XorbBytes {
+    /// reported == bytes of the xorb files that appeared
+    Exact,
+    /// reported >= appeared: the session itself may transmit one xorb twice at the same time
+    AtLeast,
+    /// reported <= appeared: uploads of an EARLIER, abandoned session of this process may still land in the store
+    AtMost,
+    /// both of the above at once: no sound bound
+    Unchecked,
+}
+
 /// `exact` = false where one session can hand the SAME xorb to the store twice at the same time (identical content cleaned by
 /// concurrently running tasks; xorb limits of 1-2 chunks, where a chunk stored again is a whole xorb again): both puts see "not
 /// there", both transmit and both are counted, but one file results - then only reported >= stored is required.
-fn check_upload_metrics(before: &StoreSnap, base: &Path, m: &deduplication::DeduplicationMetrics, exact: bool) -> Option<String> {
+fn check_upload_metrics(before: &StoreSnap, base: &Path, m: &deduplication::DeduplicationMetrics, mode: XorbBytes) -> Option<String> {
     let after = store_snap(base);
     // xorbs: new names (put never rewrites an existing xorb); shards: new names and files replaced during the session (the store
     // writes an uploaded shard to a temporary file and renames it, also over an identical earlier shard)
@@ -487,7 +500,8 @@ fn check_upload_metrics(before: &StoreSnap, base: &Path, m: &deduplication::Dedu
     let new_s: Vec<(&String, u64)> = after.shards.iter().filter(|(k, v)| before.shards.get(*k) != Some(v)).map(|(k, v)| (k, v.0)).collect();
     let n_replaced = new_s.iter().filter(|(k, _)| before.shards.contains_key(*k)).count();
     let (xb, sb): (u64, u64) = (new_x.iter().map(|(_, n)| *n).sum(), new_s.iter().map(|(_, n)| *n).sum());
-    if (exact && m.xorb_bytes_uploaded as u64 != xb) || (m.xorb_bytes_uploaded as u64) < xb {
+    let rep = m.xorb_bytes_uploaded as u64;
+    if (mode == XorbBytes::Exact && rep != xb) || (mode == XorbBytes::AtLeast && rep < xb) || (mode == XorbBytes::AtMost && rep > xb) {
         return Some(format!("every call of the session returned Ok; finalize() reports xorb_bytes_uploaded = {} but the {} xorb files that appeared in the store during the session hold {xb} bytes (the store had {} xorbs before)", m.xorb_bytes_uploaded, new_x.len(), before.xorbs.len()));
     }
     if m.shard_bytes_uploaded as u64 != sb {
@@ -548,7 +562,7 @@ async fn upload(cfg: Arc<TranslatorConfig>, tp: Arc<ThreadPool>, specs: &[Spec],
     }
     let m = session.finalize().await.map_err(|e| format!("finalize fails: {e}"))?;
     note_metrics(&m);
-    if let Some(w) = check_upload_metrics(&before, store, &m, true) {
+    if let Some(w) = check_upload_metrics(&before, store, &m, XorbBytes::Exact) {
         return Err(w);
     }
     Ok(pointers)
@@ -852,24 +866,25 @@ async fn xsession(cfg: Arc<TranslatorConfig>, tp: Arc<ThreadPool>, files: &[XF],
     }
     let (m, infos) = session.finalize_with_file_info().await.map_err(|e| format!("finalize_with_file_info fails: {e}"))?;
     note_metrics(&m);
-    if let Some(w) = check_upload_metrics(&before, store, &m, exact && !concurrent) {
+    if let Some(w) = check_upload_metrics(&before, store, &m, if exact && !concurrent { XorbBytes::Exact } else { XorbBytes::AtLeast }) {
         return Err(w);
     }
     Ok(Done { pointers: pointers.into_iter().map(|p| p.unwrap()).collect(), infos })
 }
 
-/// expected pointer hashes, computed once per (content, salt)
+/// expected pointer hashes, computed once per (content, salt).  The key is the address of the shared buffer; every entry keeps its
+/// buffer alive, so that the address cannot be handed out again for other content while the entry exists.
 #[derive(Default)]
 struct Refs {
-    hash: HashMap<(usize, usize, [u8; 32]), MerkleHash>,
-    sha: HashMap<(usize, usize), String>,
+    hash: HashMap<(usize, [u8; 32]), (Arc<Vec<u8>>, MerkleHash)>,
+    sha: HashMap<usize, (Arc<Vec<u8>>, String)>,
 }
 impl Refs {
     fn file_hash(&mut self, l: &Limits, f: &XF, salt: &[u8; 32]) -> MerkleHash {
-        *self.hash.entry((Arc::as_ptr(&f.data) as usize, f.data.len(), *salt)).or_insert_with(|| reference_file_hash(&f.data, l, salt))
+        self.hash.entry((Arc::as_ptr(&f.data) as usize, *salt)).or_insert_with(|| (f.data.clone(), reference_file_hash(&f.data, l, salt))).1
     }
     fn sha(&mut self, f: &XF) -> String {
-        self.sha.entry((Arc::as_ptr(&f.data) as usize, f.data.len())).or_insert_with(|| sha256_hex(&f.data)).clone()
+        self.sha.entry(Arc::as_ptr(&f.data) as usize).or_insert_with(|| (f.data.clone(), sha256_hex(&f.data))).1.clone()
     }
 }
 
@@ -1132,6 +1147,8 @@ async fn extras(tp: Arc<ThreadPool>, l: Arc<Limits>, cfg_name: String, seed: u64
         let starts: Vec<usize> = base_chunks.iter().scan(0usize, |p, c| { let s = *p; *p += c.len(); Some(s) }).collect();
         let poison_chunks: Vec<Arc<Vec<u8>>> = [pool.fresh_xorb(&l), pool.fresh(&l, 3)].concat();
         let poison = cat(&[&poison_chunks]);
+        #[allow(unused_assignments)]
+        let mut abandoned_gone = false;
         // (0) a session that is abandoned: two files finished, a third cleaner fed with all but 10 bytes of 'base' (its first xorb is cut and registered), nothing finalized
         {
             let ctx = format!("config {}; extras, E4 session 0 (to be dropped without finalize)", x.cfg_name);
@@ -1145,11 +1162,17 @@ async fn extras(tp: Arc<ThreadPool>, l: Arc<Limits>, cfg_name: String, seed: u64
             if let Err(e) = half.add_data(&base[..base.len() - 10]).await {
                 return Some(format!("{ctx}: add_data fails: {e}"));
             }
+            // Every upload task holds an Arc of its session (and the session owns the tasks), so an abandoned session lives - and
+            // keeps writing xorbs into the store - until its last upload task has finished.  Wait until it is really gone before the
+            // next session's window opens; should it outlive 10 s, only "reported <= appeared" is sound for the next session.
+            let weak = Arc::downgrade(&session);
             drop(half);
             drop(session);
-            // the aborted upload tasks of the dropped session end within their current poll; let them, so that the snapshot of the
-            // store taken for the next session's byte counters is stable
-            tokio::time::sleep(std::time::Duration::from_millis(150)).await;
+            let t = std::time::Instant::now();
+            while weak.upgrade().is_some() && t.elapsed() < std::time::Duration::from_secs(10) {
+                tokio::time::sleep(std::time::Duration::from_millis(5)).await;
+            }
+            abandoned_gone = weak.upgrade().is_none();
         }
         let f_poison = xf("poison", format!("{} fresh chunks; the same file was cleaned and finished in session 0, which was dropped without finalize", poison_chunks.len()), poison.clone(), smalls.clone());
         let f_base = xf("base", format!("{nb} fresh chunks (one full xorb + 8); also cleaned in the abandoned session 0"), base.clone(), one.clone());
@@ -1171,7 +1194,7 @@ async fn extras(tp: Arc<ThreadPool>, l: Arc<Limits>, cfg_name: String, seed: u64
             let infos = match session.finalize_with_file_info().await {
                 Ok((m, i)) => {
                     note_metrics(&m);
-                    if let Some(w) = check_upload_metrics(&before, store.path(), &m, l.xorb_chunks > 2) {
+                    if let Some(w) = check_upload_metrics(&before, store.path(), &m, match (abandoned_gone, l.xorb_chunks > 2) { (true, true) => XorbBytes::Exact, (true, false) => XorbBytes::AtLeast, (false, true) => XorbBytes::AtMost, (false, false) => XorbBytes::Unchecked }) {
                         return Some(format!("{ctx}: {w}"));
                     }
                     i
